@@ -17,14 +17,41 @@ abbrev ax : Nat → Prog → AState → Option AState := aexec Grammar.defs
 def loopK (n : Nat) (c b : Prog) (a1 : AState) : Option AState :=
   if a1.flag = true then (ax n b a1).bind (ax n (loop c b)) else some a1
 
-theorem cpsUp_contains_zero (cps : List Nat) : (cpsUp cps).contains 0 = false := by
+/-- push node kinds (given in source order) onto a frame (most recent first) -/
+def pushAll : List SyntaxKind → List SyntaxKind → List SyntaxKind
+  | [], l => l
+  | k :: ks, l => pushAll ks (k :: l)
+
+theorem pushAll_eq (ks l : List SyntaxKind) : pushAll ks l = ks.reverse ++ l := by
+  induction ks generalizing l with
+  | nil => rfl
+  | cons k ks ih => simp [pushAll, ih]
+
+theorem pushAll_nil_reverse (ks : List SyntaxKind) : (pushAll ks []).reverse = ks := by
+  simp [pushAll_eq]
+
+/-- closing a node whose single accessor returns all children of the listed kinds -/
+theorem good_all_push (k : SyntaxKind) (f : AstTable.Field) (hf : AstTable.fields k = some [f]) (hs : f.sel = .all)
+    (ks : List SyntaxKind) (h : ∀ x ∈ ks, f.casts.contains x = true) :
+    goodNode k (pushAll ks []).reverse = true := by
+  rw [pushAll_nil_reverse]; exact goodNode_of_all k f hf hs ks h
+
+theorem pushAll_reverse (ks l : List SyntaxKind) : (pushAll ks l).reverse = l.reverse ++ ks := by
+  simp [pushAll_eq]
+
+theorem pushAll_append (a b l : List SyntaxKind) : pushAll (a ++ b) l = pushAll b (pushAll a l) := by
+  induction a generalizing l with
+  | nil => rfl
+  | cons k ks ih => simp [pushAll, ih]
+
+theorem hasTop_cpsUp (cps : CpStack) : hasTop (cpsUp cps) = false := by
   induction cps with
   | nil => rfl
   | cons c cs ih =>
-    simp only [cpsUp, List.map_cons, List.contains_cons] at ih ⊢
+    simp only [hasTop, cpsUp, List.map_cons, List.any_cons] at ih ⊢
     rw [ih]; simp
 
-theorem cpsDown_cpsUp (cps : List Nat) : cpsDown (cpsUp cps) = cps := by
+theorem cpsDown_cpsUp (cps : CpStack) : cpsDown (cpsUp cps) = cps := by
   induction cps with
   | nil => rfl
   | cons c cs ih =>
@@ -32,7 +59,8 @@ theorem cpsDown_cpsUp (cps : List Nat) : cpsDown (cpsUp cps) = cps := by
     rw [ih]; simp
 
 section rules
-variable (n : Nat) (ks : List TokenKind) (fl : Bool) (d : Nat) (loc : List Bool) (cps : List Nat) (nm : Bool)
+variable (n : Nat) (ks : List TokenKind) (fl : Bool) (d : Nat) (loc : List Bool) (cps : CpStack) (nm : Bool)
+  (cur : List SyntaxKind) (ps : List (SyntaxKind × List SyntaxKind))
 
 theorem ax_call (f : Fn) (a : AState) : ax (n+1) (call f) a = ax n (Grammar.defs f) a := rfl
 theorem ax_nop (a : AState) : ax (n+1) nop a = some a := rfl
@@ -40,32 +68,38 @@ theorem ax_seq (p q : Prog) (a : AState) : ax (n+1) (seq p q) a = (ax n p a).bin
   show (match ax n p a with | some a1 => ax n q a1 | none => none) = _
   cases ax n p a <;> rfl
 theorem ax_startNode (k : SyntaxKind) :
-    ax (n+1) (startNode k) ⟨ks, fl, d, loc, cps, nm⟩ = some ⟨ks, fl, d+1, loc, cpsUp cps, nm⟩ := rfl
-theorem ax_finishNode :
-    ax (n+1) finishNode ⟨ks, fl, d+1, loc, cpsUp cps, nm⟩ = some ⟨ks, fl, d, loc, cps, nm⟩ := by
-  show (if (cpsUp cps).contains 0 = true then none else
-    some (⟨ks, fl, d, loc, cpsDown (cpsUp cps), nm⟩ : AState)) = _
-  rw [cpsUp_contains_zero, cpsDown_cpsUp]; rfl
-theorem ax_pushCp (h : cps.contains 0 = false) :
-    ax (n+1) pushCp ⟨ks, fl, d, loc, cps, nm⟩ = some ⟨ks, fl, d, loc, 0 :: cps, nm⟩ := by
-  show (if cps.contains 0 = true then none else some (⟨ks, fl, d, loc, 0 :: cps, nm⟩ : AState)) = _
+    ax (n+1) (startNode k) ⟨ks, fl, d, loc, cps, nm, cur, ps⟩ = some ⟨ks, fl, d+1, loc, cpsUp cps, nm, [], (k, cur) :: ps⟩ := rfl
+theorem ax_finishNode (k : SyntaxKind) (sibs : List SyntaxKind) (h : goodNode k cur.reverse = true) :
+    ax (n+1) finishNode ⟨ks, fl, d+1, loc, cpsUp cps, nm, cur, (k, sibs) :: ps⟩ =
+      some ⟨ks, fl, d, loc, cps, nm, k :: sibs, ps⟩ := by
+  show (if hasTop (cpsUp cps) = true then none else
+    (if goodNode k cur.reverse = true then
+      some (⟨ks, fl, d, loc, cpsDown (cpsUp cps), nm, k :: sibs, ps⟩ : AState) else none)) = _
+  rw [hasTop_cpsUp, cpsDown_cpsUp, h]; rfl
+theorem ax_pushCp (h : hasTop cps = false) :
+    ax (n+1) pushCp ⟨ks, fl, d, loc, cps, nm, cur, ps⟩ = some ⟨ks, fl, d, loc, (0, cur) :: cps, nm, cur, ps⟩ := by
+  show (if hasTop cps = true then none else some (⟨ks, fl, d, loc, (0, cur) :: cps, nm, cur, ps⟩ : AState)) = _
   rw [h]; rfl
-theorem ax_popCp (c : Nat) :
-    ax (n+1) popCp ⟨ks, fl, d, loc, c :: cps, nm⟩ = some ⟨ks, fl, d, loc, cps, nm⟩ := rfl
-theorem ax_startNodeAtCp (k : SyntaxKind) :
-    ax (n+1) (startNodeAtCp k) ⟨ks, fl, d, loc, 0 :: cps, nm⟩ = some ⟨ks, fl, d+1, loc, cpsUp (0 :: cps), nm⟩ := rfl
-theorem ax_retB (b : Bool) : ax (n+1) (retB b) ⟨ks, fl, d, loc, cps, nm⟩ = some ⟨ks, b, d, loc, cps, nm⟩ := rfl
-theorem ax_skip : ax (n+1) skip ⟨ks, fl, d, loc, cps, nm⟩ = some ⟨ks, fl, d, loc, cps, true⟩ := rfl
+theorem ax_popCp (c : Nat × List SyntaxKind) :
+    ax (n+1) popCp ⟨ks, fl, d, loc, c :: cps, nm, cur, ps⟩ = some ⟨ks, fl, d, loc, cps, nm, cur, ps⟩ := rfl
+theorem ax_startNodeAtCp (k k1 : SyntaxKind) (C : List SyntaxKind) :
+    ax (n+1) (startNodeAtCp k) ⟨ks, fl, d, loc, (0, C) :: cps, nm, k1 :: C, ps⟩ =
+      some ⟨ks, fl, d+1, loc, cpsUp ((0, C) :: cps), nm, [k1], (k, C) :: ps⟩ := by
+  show some (⟨ks, fl, d+1, loc, cpsUp ((0, C) :: cps), nm, (k1 :: C).take ((k1 :: C).length - C.length), (k, C) :: ps⟩ : AState) = _
+  have : (k1 :: C).length - C.length = 1 := by simp
+  rw [this]; rfl
+theorem ax_retB (b : Bool) : ax (n+1) (retB b) ⟨ks, fl, d, loc, cps, nm, cur, ps⟩ = some ⟨ks, b, d, loc, cps, nm, cur, ps⟩ := rfl
+theorem ax_skip : ax (n+1) skip ⟨ks, fl, d, loc, cps, nm, cur, ps⟩ = some ⟨ks, fl, d, loc, cps, true, cur, ps⟩ := rfl
 theorem ax_ifFlag_true (t e : Prog) :
-    ax (n+1) (ifFlag t e) ⟨ks, true, d, loc, cps, nm⟩ = ax n t ⟨ks, true, d, loc, cps, nm⟩ := rfl
+    ax (n+1) (ifFlag t e) ⟨ks, true, d, loc, cps, nm, cur, ps⟩ = ax n t ⟨ks, true, d, loc, cps, nm, cur, ps⟩ := rfl
 theorem ax_ifFlag_false (t e : Prog) :
-    ax (n+1) (ifFlag t e) ⟨ks, false, d, loc, cps, nm⟩ = ax n e ⟨ks, false, d, loc, cps, nm⟩ := rfl
+    ax (n+1) (ifFlag t e) ⟨ks, false, d, loc, cps, nm, cur, ps⟩ = ax n e ⟨ks, false, d, loc, cps, nm, cur, ps⟩ := rfl
 theorem ax_ifAt_pos (ts : List TokenKind) (t e : Prog) (h : ts.contains (ks.headD .Eof) = true) :
-    ax (n+1) (ifAt ts t e) ⟨ks, fl, d, loc, cps, true⟩ = ax n t ⟨ks, fl, d, loc, cps, true⟩ := by
+    ax (n+1) (ifAt ts t e) ⟨ks, fl, d, loc, cps, true, cur, ps⟩ = ax n t ⟨ks, fl, d, loc, cps, true, cur, ps⟩ := by
   show (if ts.contains (ks.headD .Eof) = true then _ else _) = _
   rw [if_pos h]
 theorem ax_ifAt_neg (ts : List TokenKind) (t e : Prog) (h : ts.contains (ks.headD .Eof) = false) :
-    ax (n+1) (ifAt ts t e) ⟨ks, fl, d, loc, cps, true⟩ = ax n e ⟨ks, fl, d, loc, cps, true⟩ := by
+    ax (n+1) (ifAt ts t e) ⟨ks, fl, d, loc, cps, true, cur, ps⟩ = ax n e ⟨ks, fl, d, loc, cps, true, cur, ps⟩ := by
   show (if ts.contains (ks.headD .Eof) = true then _ else _) = _
   rw [h]; rfl
 theorem ax_loop (c b : Prog) (a : AState) : ax (n+1) (loop c b) a = (ax n c a).bind (loopK n c b) := by
@@ -85,45 +119,45 @@ theorem ax_loop (c b : Prog) (a : AState) : ax (n+1) (loop c b) a = (ax n c a).b
     · cases ax n b a1 <;> rfl
     · rfl
 theorem loopK_true (c b : Prog) :
-    loopK n c b ⟨ks, true, d, loc, cps, nm⟩ = (ax n b ⟨ks, true, d, loc, cps, nm⟩).bind (ax n (loop c b)) := rfl
+    loopK n c b ⟨ks, true, d, loc, cps, nm, cur, ps⟩ = (ax n b ⟨ks, true, d, loc, cps, nm, cur, ps⟩).bind (ax n (loop c b)) := rfl
 theorem loopK_false (c b : Prog) :
-    loopK n c b ⟨ks, false, d, loc, cps, nm⟩ = some ⟨ks, false, d, loc, cps, nm⟩ := rfl
+    loopK n c b ⟨ks, false, d, loc, cps, nm, cur, ps⟩ = some ⟨ks, false, d, loc, cps, nm, cur, ps⟩ := rfl
 theorem ax_eat (k : TokenKind) (h : (k == .Error) = false) :
-    ax (n+1) eat ⟨k :: ks, fl, d, loc, cps, true⟩ = some ⟨ks, fl, d, loc, cps, true⟩ := by
+    ax (n+1) eat ⟨k :: ks, fl, d, loc, cps, true, cur, ps⟩ = some ⟨ks, fl, d, loc, cps, true, cur, ps⟩ := by
   show (if (k == .Error) = true then none else some _) = _
   rw [h]; rfl
 theorem ax_eatIf_pos (k : TokenKind) (h : (k == .Error) = false) :
-    ax (n+1) (eatIf k) ⟨k :: ks, fl, d, loc, cps, true⟩ = some ⟨ks, true, d, loc, cps, true⟩ := by
+    ax (n+1) (eatIf k) ⟨k :: ks, fl, d, loc, cps, true, cur, ps⟩ = some ⟨ks, true, d, loc, cps, true, cur, ps⟩ := by
   show (if ((k :: ks).headD .Eof == k) = true then
-        (match (if (k == .Error) = true then none else some (⟨ks, fl, d, loc, cps, true⟩ : AState)) with
+        (match (if (k == .Error) = true then none else some (⟨ks, fl, d, loc, cps, true, cur, ps⟩ : AState)) with
          | some a1 => some { a1 with flag := true }
          | none => none)
       else _) = _
   rw [h]; simp
 theorem ax_eatIf_neg (k : TokenKind) (h : (ks.headD .Eof == k) = false) :
-    ax (n+1) (eatIf k) ⟨ks, fl, d, loc, cps, true⟩ = some ⟨ks, false, d, loc, cps, true⟩ := by
+    ax (n+1) (eatIf k) ⟨ks, fl, d, loc, cps, true, cur, ps⟩ = some ⟨ks, false, d, loc, cps, true, cur, ps⟩ := by
   show (if (ks.headD .Eof == k) = true then _ else _) = _
   rw [h]; rfl
 theorem ax_expect (k : TokenKind) (msg : Option String) (h : (k == .Error) = false) :
-    ax (n+1) (expect k msg) ⟨k :: ks, fl, d, loc, cps, true⟩ = some ⟨ks, fl, d, loc, cps, true⟩ := by
+    ax (n+1) (expect k msg) ⟨k :: ks, fl, d, loc, cps, true, cur, ps⟩ = some ⟨ks, fl, d, loc, cps, true, cur, ps⟩ := by
   show (if ((k :: ks).headD .Eof == k) = true then
-        (if (k == .Error) = true then none else some (⟨ks, fl, d, loc, cps, true⟩ : AState)) else none) = _
+        (if (k == .Error) = true then none else some (⟨ks, fl, d, loc, cps, true, cur, ps⟩ : AState)) else none) = _
   rw [h]; simp
 theorem ax_assertTok (k : TokenKind) (h : (k == .Error) = false) :
-    ax (n+1) (assertTok k) ⟨k :: ks, fl, d, loc, cps, true⟩ = some ⟨ks, fl, d, loc, cps, true⟩ := by
+    ax (n+1) (assertTok k) ⟨k :: ks, fl, d, loc, cps, true, cur, ps⟩ = some ⟨ks, fl, d, loc, cps, true, cur, ps⟩ := by
   show (if ((k :: ks).headD .Eof == k) = true then
-        (if (k == .Error) = true then none else some (⟨ks, fl, d, loc, cps, true⟩ : AState)) else none) = _
+        (if (k == .Error) = true then none else some (⟨ks, fl, d, loc, cps, true, cur, ps⟩ : AState)) else none) = _
   rw [h]; simp
 theorem ax_pushLocal :
-    ax (n+1) pushLocal ⟨ks, fl, d, loc, cps, nm⟩ = some ⟨ks, fl, d, false :: loc, cps, nm⟩ := rfl
+    ax (n+1) pushLocal ⟨ks, fl, d, loc, cps, nm, cur, ps⟩ = some ⟨ks, fl, d, false :: loc, cps, nm, cur, ps⟩ := rfl
 theorem ax_popLocal (b : Bool) :
-    ax (n+1) popLocal ⟨ks, fl, d, b :: loc, cps, nm⟩ = some ⟨ks, fl, d, loc, cps, nm⟩ := rfl
+    ax (n+1) popLocal ⟨ks, fl, d, b :: loc, cps, nm, cur, ps⟩ = some ⟨ks, fl, d, loc, cps, nm, cur, ps⟩ := rfl
 theorem ax_setLocal (b : Bool) :
-    ax (n+1) setLocal ⟨ks, fl, d, b :: loc, cps, nm⟩ = some ⟨ks, fl, d, true :: loc, cps, nm⟩ := rfl
+    ax (n+1) setLocal ⟨ks, fl, d, b :: loc, cps, nm, cur, ps⟩ = some ⟨ks, fl, d, true :: loc, cps, nm, cur, ps⟩ := rfl
 theorem ax_ifLocal_true (t e : Prog) :
-    ax (n+1) (ifLocal t e) ⟨ks, fl, d, true :: loc, cps, nm⟩ = ax n t ⟨ks, fl, d, true :: loc, cps, nm⟩ := rfl
+    ax (n+1) (ifLocal t e) ⟨ks, fl, d, true :: loc, cps, nm, cur, ps⟩ = ax n t ⟨ks, fl, d, true :: loc, cps, nm, cur, ps⟩ := rfl
 theorem ax_ifLocal_false (t e : Prog) :
-    ax (n+1) (ifLocal t e) ⟨ks, fl, d, false :: loc, cps, nm⟩ = ax n e ⟨ks, fl, d, false :: loc, cps, nm⟩ := rfl
+    ax (n+1) (ifLocal t e) ⟨ks, fl, d, false :: loc, cps, nm, cur, ps⟩ = ax n e ⟨ks, fl, d, false :: loc, cps, nm, cur, ps⟩ := rfl
 
 end rules
 
